@@ -8,7 +8,7 @@ import gen
 PID = 'C01'
 LEVEL = 'exploration'
 VARIANTS = {'quick': ['asan', 'plain'], 'thorough': ['asan', 'plain', 'asan-tdbg']}
-RULE = ('enumerated (un,vn) grid 1..40, every shape on both sides of each arm boundary of the mpn_mul/mul_n/sqr '
+RULE = ('[also: matrix-Fourier FFT sizes (product > 65200 limbs) with single-bit / 2^k+-1 operands, MFA and truncated FFT variants required; the same limb vector as both sources with different lengths in every regime] enumerated (un,vn) grid 1..40, every shape on both sides of each arm boundary of the mpn_mul/mul_n/sqr '
         'dispatch computed from the variant\'s own gmp-mparam.h, chunked-basecase shapes, FFT sizes, _1 kernels, mpz '
         'sign/alias/shrink combinations x hostile data classes (all-ones, runs, single bit, special limbs, equal operands), '
         'plus a seeded random part; judged against Python big-int products. distinct = (function, dispatch arm, size '
